@@ -5,41 +5,41 @@ import json, os, subprocess, sys
 ROOT = os.path.dirname(os.path.dirname(os.path.abspath(__file__)))
 
 # id -> (implemented, category, technique, level text, note, design_ref)
-W1 = "4 planners x 6 space families x generated worlds / parameters / seeds under the virtual clock, planner-RNG and scripted sample sequences (16 000 runs quick, 1.5 million thorough; C03: 8 000 / 600 000), plus call histories (re-setup with a new checker on the same problem object, repeated solve, replaced problems, user-mutated step / radius fields)"
+W1 = "4 planners x 6 space families x generated worlds / parameters / seeds under the virtual clock, planner-RNG and scripted sample sequences (16 000 runs quick, 1.5 million thorough; C03: 8 000 / 600 000), plus call histories (re-setup with a new checker on the same problem object, repeated solve, replaced problems, user-mutated step / radius fields) and problems that list two or three start states (valid, deep or marginally inside an obstacle)"
 CHECKS = {
     "C01": (True, "exploration",
             "runtime monitor at the validity-checker boundary: every state of every returned path re-evaluated with the pure validity function; invalid-start cases checked against the required error",
-            "Returned paths of " + W1 + " incl. starts marginally (0, 1 ulp, 1e-9) and deeply inside obstacles, goal regions overlapping / covered by obstacles and scripted samples exactly on obstacle boundaries are re-validated state by state. Holds on the executions observed.",
+            "Returned paths of " + W1 + " incl. starts marginally (0, 1 ulp, 1e-9) and deeply inside obstacles, goal regions overlapping / covered by obstacles and scripted samples exactly on obstacle boundaries, invalid starts that already satisfy the goal, and degenerate-metric cases (invalid states at distance exactly 0 from the start: zero-weight component twins, antipodal quaternions) are re-validated state by state. Holds on the executions observed.",
             "Trusted: purity of the harness validity function; the world generator.",
             "DESIGN.md section 5 C01"),
     "C02": (True, "exploration",
             "runtime oracle on returned paths: bit comparison of the first state with the installed start, goal predicate on the last state",
-            "Returned paths of " + W1 + " are checked for non-emptiness, bit-identical start and goal satisfaction; RRT-Connect assembly kinds (direct / junction) are counted.",
+            "Returned paths of " + W1 + " are checked for non-emptiness, bit-identical start and goal satisfaction; RRT-Connect assembly kinds (direct / junction) are counted; plus degenerate-metric twins of the start, very deep trees (4 500-9 000 nodes on the solution branch) and goal regions overhanging the sampling box.",
             "Trusted: the goal predicate of the harness goal object.",
             "DESIGN.md section 5 C02"),
     "C03": (True, "exploration",
             "offline checker over the recorded validity-query log: segment-coverage oracle (no gap above the longest valid segment between accepted on-segment queries) plus dense re-check",
-            "For every segment of every returned path of " + W1 + " (walls thicker than the resolution but thinner than the step, slivers, shells, resolution fractions 2e-3..1, steps up to 10x the extent) the recorded accepted queries must cover the segment; edge kinds (extension, RRT* parent choice, rewired, RRT-Connect junction, goal-tree, PRM link, PRM start connection) are counted and required to be observed.",
+            "For every segment of every returned path of " + W1 + " (walls thicker than the resolution but thinner than the step, slivers, shells, resolution fractions 2e-3..1, steps up to 10x the extent) the recorded accepted queries must cover the segment; edge kinds (extension, RRT* parent choice, rewired, RRT-Connect junction, goal-tree, PRM link, PRM start connection) are counted and required to be observed; a timed family runs the planners under the cost-model clock with solve budgets that end in the middle of an iteration and judges the paths of later calls on the same planner.",
             "Trusted: the space's own distance as the on-segment test (C09 judges it); antipodal endpoints are ambiguous.",
             "DESIGN.md section 5 C03"),
     "C04": (True, "exploration",
             "runtime oracle on returned paths: independent bounds test, precondition (start / goal samples in bounds) taken from the event log",
-            "Returned paths of " + W1 + " on bounded spaces (boxes, angular intervals of every span, cones, compounds) are tested state by state with an independent bounds test. Non-convex angular regions are the known finding K-1 (keyed on the violating component kind).",
+            "Returned paths of " + W1 + " on bounded spaces (boxes, angular intervals of every span, cones, compounds) are tested state by state with an independent bounds test; start states may carry un-normalised angles. Non-convex angular regions are the known finding K-1 (keyed on the violating component kind).",
             "Trusted: reference bounds test with 1e-9 / 1e-7 allowances.",
             "DESIGN.md section 5 C04"),
     "C05": (True, "exploration",
             "runtime oracle on returned paths: consecutive-state distance against the configured limit",
-            "Returned paths of " + W1 + " with steps / radii from 1e-3x to 10x the diameter are checked segment by segment in the space's own metric.",
+            "Returned paths of " + W1 + " with steps / radii from 1e-3x to 10x the diameter are checked segment by segment in the space's own metric; start states may carry un-normalised angles or lie outside the sampling box; RRT* radii include 0.",
             "Trusted: the space's own distance (C09).",
             "DESIGN.md section 5 C05"),
     "C06": (True, "exploration",
             "online deadline monitor on sampler events under a virtual clock (cost model), soundness on infeasible-by-construction worlds, query-budget trip as a logical-step progress bound",
-            "12 000 (quick) / 1 000 000 (thorough) solve / construct_roadmap calls (a quarter of them warm-started: same planner and problem object first used in an empty world) with time limits 0..5000 ticks where every validity query and sampler call costs one tick: no iteration may begin after first-clock-read + T; no path may be returned in a world that is infeasible by construction (goal sealed by a shell >= 2 lvs thick, start sealed in, goal region invalid); no call may exceed a query budget >= 10x any terminating execution. Liveness is restated as this bounded-step property.",
+            "12 000 (quick) / 1 000 000 (thorough) solve / construct_roadmap calls (a quarter of them warm-started: same planner and problem object first used in an empty world) with time limits 0..5000 ticks where every validity query and sampler call costs one tick: no iteration may begin after first-clock-read + T; no path may be returned in a world that is infeasible by construction (goal sealed by a shell >= 2 lvs thick, start sealed in, goal region invalid; sealed worlds may list an invalid extra start state inside the seal); no call may exceed a query budget >= 10x any terminating execution. Liveness is restated as this bounded-step property.",
             "Trusted: the clock shim (hook H2/H3; a solve that never read it is reported inconclusive), triangle inequality of the metric for the infeasibility argument. Known finding K-2 (resolution fraction <= 0).",
             "DESIGN.md section 5 C06"),
     "C07": (True, "exploration",
             "differential runtime check: two fresh instances with the same seed driven through the same call history, compared at every call; prefix consistency across iteration budgets; real vs virtual time",
-            "6 000 / 400 000 call histories (30 % with scripted samples full of duplicates) (incl. repeated solve, re-setup, solve before setup, PRM set_problem_definition and re-construction, goal samplers that consume the generator) are executed twice and compared bit for bit (paths), by variant (errors) and by snapshot hash; plus prefix pairs and real-time runs.",
+            "6 000 / 400 000 call histories (30 % with scripted samples full of duplicates) (incl. repeated solve, re-setup, solve before setup, PRM set_problem_definition and re-construction, goal samplers that consume the generator) are executed twice and compared bit for bit (paths), by variant (errors) and by snapshot hash; plus prefix pairs (node states, final parent links, roadmap links among common milestones), clock-pacing pairs (the same number of iterations with the elapsed time distributed uniformly / front-loaded / back-loaded: results, trees and roadmaps must be identical) and real-time runs.",
             "Trusted: deterministic harness callbacks; both instances share a thread so thread-local / OS entropy shows up as a difference.",
             "DESIGN.md section 5 C07"),
     "C08": (True, "fault_enumeration",
@@ -49,27 +49,27 @@ CHECKS = {
             "DESIGN.md section 5 C08"),
     "C15": (True, "exploration",
             "structural invariant hook checked at every quiescent point of single-stepped planners (snapshot H4), edge coverage from the query log",
-            "RRT / RRT-Connect / RRT* are single-stepped (solve(0) under the virtual clock = one iteration) through scripted samples over alphabets with duplicates, seam / antipodal and boundary states (3 000 / 200 000 random scripts, 30 % with a re-setup half-way, 25 % with a step that equals a letter distance exactly; all scripts up to depth 4 - thorough: 5 on a quarter of the worlds - over a 6-letter alphabet on 6 / 96 worlds); after every step the snapshot is checked for parents in range, single root = start / goal sample, acyclicity (bounded walk), node validity, edge length and motion-check coverage.",
+            "RRT / RRT-Connect / RRT* are single-stepped (a budget of half a sampler tick under the virtual clock = one iteration) through scripted samples over alphabets with duplicates, seam / antipodal and boundary states (3 000 / 200 000 random scripts, 30 % with a re-setup half-way, 25 % with a step that equals a letter distance exactly; all scripts up to depth 4 - thorough: 5 on a quarter of the worlds - over a 6-letter alphabet on 6 / 96 worlds); after every step the snapshot is checked for parents in range, single root = start / goal sample, acyclicity (bounded walk), node validity (goal-side root included), edge length and motion-check coverage; the same on the trees left by whole solve calls of 8-68 iterations; problems may list further start states (extra roots admissible for valid listed states only).",
             "Trusted: snapshot accessor (read-only clone); space's distance for coverage.",
             "DESIGN.md section 5 C15"),
     "C16": (True, "exploration",
             "transition monitor over consecutive snapshots + the logged sample of each single-stepped iteration; Hoeffding bound on goal-sample frequency",
-            "Each observed transition is checked against the nearest-node / one-step rule (ties existential), at most one node per tree, rejection only after a rejected query, RRT-Connect balance / connect / termination rules; goal-bias frequencies over 18 / 72 long seeded runs (half of them with the public goal_bias field changed after setup) against Hoeffding at alpha 1e-9.",
+            "Each observed transition is checked against the nearest-node / one-step rule (ties existential), at most one node per tree, rejection only after a rejected query, RRT-Connect balance / connect / termination rules; whole solve calls of 8-68 iterations must be explainable node by node (insertion order) by the samples they drew (existential; covers state carried between iterations of one call); goal-bias frequencies over 18 / 72 long seeded runs (half of them with the public goal_bias field changed after setup) against Hoeffding at alpha 1e-9.",
             "Trusted: tolerances of DESIGN.md section 3.",
             "DESIGN.md section 5 C16"),
     "C17": (True, "exploration",
             "transition monitor for RRT* (snapshot with costs before / after, per-step query log) plus RRT-vs-RRT* differential on the same seed",
-            "For every RRT* extension: cost = parent cost + edge, parent in the candidate set, no cheaper neighbour skipped unless a query on its motion was rejected, parent link and rewired links validated in that iteration, exactly the neighbours that become cheaper are re-parented, others untouched, recorded cost >= true branch length; 1 500 / 100 000 RRT-vs-RRT* pairs (same end state, RRT* not longer).",
+            "For every RRT* extension: cost = parent cost + edge, parent in the candidate set, no cheaper neighbour skipped unless a query on its motion was rejected, parent link and rewired links validated in that iteration, exactly the neighbours that become cheaper are re-parented, others untouched, recorded cost >= true branch length; 1 500 / 100 000 RRT-vs-RRT* pairs (same end state up to rounding, RRT* not longer; half with generator-consuming goal samplers, a fifth after a refused solve-before-setup); radii incl. 0 and negative.",
             "Trusted: tolerances; the existential treatment of tied nearest nodes.",
             "DESIGN.md section 5 C17"),
     "C18": (True, "exploration",
             "roadmap snapshot compared with the accepted samples of the event log, graph invariants, link completeness, reference multi-source BFS for every query",
-            "6 000 / 250 000 PRM life cycles (incl. a second life after a new setup) with exact sample budgets (virtual clock), scripted (incl. all scripts to depth 4) and planner-RNG samples, radii from isolated nodes to complete graphs, obstacle-free and obstructed worlds, replaced problems.",
+            "6 000 / 250 000 PRM life cycles (incl. a second life after a new setup) with exact sample budgets (virtual clock), scripted (incl. all scripts to depth 4) and planner-RNG samples, radii from isolated nodes to complete graphs, obstacle-free and obstructed worlds, replaced problems, and a query that runs out of time in the middle of the graph search (every clock read costs a tick) followed by the same query with time.",
             "Trusted: reference BFS; start links bracketed between certain and possible in obstructed worlds (exact in obstacle-free ones).",
             "DESIGN.md section 5 C18"),
     "C09": (True, "exploration",
             "runtime oracle over executed distance calls: metric axioms + independent reference on exhaustive lattice triples and seeded random triples",
-            "Every distance call made by the workload (all ordered triples of a 56/150-value special lattice per space setting, plus 2e4/1.5e6 random triples, 35-81 space settings (bounded and unbounded) incl. compounds with weights 0/1e-3/1/50 and the erased *_dyn interface) is checked online against the metric axioms, the diameter bound, representation independence and an independent atan2-based reference. Exploration: holds on the executions observed, nothing more.",
+            "Every distance call made by the workload (all ordered triples of a 56/150-value special lattice per space setting, plus 2e4/1.5e6 random triples, about 45-90 space settings (bounded and unbounded, R^1..R^33) incl. compounds with weights 0/1e-3/1/50/-2 and the erased *_dyn interface) is checked online against the metric axioms, the diameter bound, representation independence and an independent atan2-based reference. Exploration: holds on the executions observed, nothing more.",
             "Trusted: the reference formulas, IEEE-754 arithmetic, tolerances stated in the evidence. Inputs above 1e100 in R^n are outside the explored domain.",
             "DESIGN.md section 5 C09"),
     "C10": (True, "exploration",
@@ -79,7 +79,7 @@ CHECKS = {
             "DESIGN.md section 5 C10"),
     "C11": (True, "exploration",
             "runtime assertions on sample_uniform / enforce_bounds / satisfies_bounds executions with an independent bounds test and a draw-budgeted generator",
-            "Hostile states (far outside, on and one ulp around the boundary, non-canonical angles, zero and non-unit quaternions) are enforced and 2e3/2e5 samples are drawn per constructible bound setting (about 170/420 settings over all six spaces, SO3 cones from 1e-3 rad to pi, SO2 intervals a few ulps wide or touching +-pi); each execution is checked for agreement of the three operations, canonical form, idempotence, an independent bounds test and absence of panics.",
+            "Hostile states (far outside, on and one ulp around the boundary, non-canonical angles, zero and non-unit quaternions) are enforced and 2e3/2e5 samples are drawn per constructible bound setting (about 170/420 settings over all six spaces, SO3 cones from 1e-3 rad to pi, SO2 intervals a few ulps wide or touching +-pi); boxes with up to 17 coordinates and probes with exactly one coordinate outside; each execution is checked for agreement of the three operations, canonical form (the enforced angle numerically inside its interval), idempotence, an independent bounds test and absence of panics.",
             "Trusted: reference bounds test with 1e-9 (2.5e-7 for SO3) allowance. SO3 cones in [1e-9,0.1) rad are enforced but not sampled.",
             "DESIGN.md section 5 C11"),
     "C12": (True, "exploration",
@@ -89,22 +89,22 @@ CHECKS = {
             "DESIGN.md section 5 C12"),
     "C13": (True, "exploration",
             "differential runtime check: every compound / SE2 / SE3 operation against the same operation carried out on typed component spaces",
-            "Compound distance, interpolation, enforce, satisfies, sampling (same generator stream) and resolution are compared, bit for bit except for the 1e-12 relative distance law, with the typed component spaces for all ordered layouts of 1-2 components (quick) / 1-4 components (thorough, 2800 layouts), after the public weights were changed, and SE2/SE3 against the explicit compound with weights (1,w); also through the erased interface; the thorough tier adds a Miri run.",
+            "Compound distance, interpolation, enforce, satisfies, sampling and resolution are compared - bit for bit except for the 1e-12 relative distance law (plain or overflow-safe accumulation) and sampling (bit-exact under some order of component draws, else statistically: bounds + two-sample KS of every marginal) - with the typed component spaces for all ordered layouts of 1-2 components (quick) / 1-4 components (thorough, 2800 layouts), after the public weights were changed, and SE2/SE3 against the explicit compound with weights (1,w) incl. yaw intervals at least a full turn wide and non-unit quaternions; also through the erased interface; the thorough tier adds a Miri run.",
             "Trusted: component operations (judged by C09-C12).",
             "DESIGN.md section 5 C13"),
     "C14": (True, "exploration",
             "statistical runtime monitor: DKW goodness-of-fit of large samples against exact marginal laws and two-sample DKW independence tests at alpha = 1e-9",
-            "2e5 (quick) / 5e6 (thorough) samples per setting (tight SO3 cones: 3e3+) are drawn through sample_uniform and every scalar statistic is compared with its exact law; a deviation above the DKW epsilon (7.3e-3 / 1.5e-3) is a violation with false-alarm probability below 1e-6 per run. Biases below epsilon are invisible.",
+            "2e5 (quick) / 5e6 (thorough) samples per setting (tight SO3 cones: 3e3+) are drawn through sample_uniform and every scalar statistic (quaternion coordinates on absolute values: q and -q are one rotation; wide cones and cones around large rotations in every run) is compared with its exact law; a deviation above the DKW epsilon (7.3e-3 / 1.5e-3) is a violation with false-alarm probability below 1e-6 per run. Biases below epsilon are invisible.",
             "Trusted: ChaCha8 as the source of randomness; exact marginal laws derived in DESIGN.md.",
             "DESIGN.md section 5 C14"),
     "C19": (True, "exploration",
             "differential runtime check across the language boundary: the same seeded scenarios executed through oxmpl_py (Python callbacks with bit-identical arithmetic) and through the core, compared bit for bit",
-            "240 / 2400 scenarios (6 problem-definition variants x 4 planners x generated worlds / parameters / seeds) are run through the freshly built extension module; RRT / RRT-Connect / RRT* paths must equal the core's bit for bit (and make the same number of validity queries) and errors by kind, PRM paths must be sound under the same primitives; about 2300 wrapper probes over the C12 lattice compare ValueError-vs-Err, distances, extents and canonicalised angles bitwise.",
+            "240 / 2400 scenarios (6 problem-definition variants x 4 planners x generated worlds / parameters / seeds) are run through the freshly built extension module; RRT / RRT-Connect / RRT* paths must equal the core's bit for bit (and make the same number of validity queries and goal-sampler calls; some goal samplers return states outside the goal) and errors by kind, PRM paths must be sound under the same primitives; about 2300 wrapper probes over the C12 lattice compare ValueError-vs-Err, distances, extents and canonicalised angles bitwise.",
             "Trusted: CPython floats are IEEE doubles; a wall-clock time-out on the Python side makes that case inconclusive. The extension is rebuilt from /repo's working tree (cargo build -p oxmpl-py, debug profile).",
             "DESIGN.md section 5 C19"),
     "C20": (True, "fault_enumeration",
             "fault injection in Python callbacks (raise - six exception classes incl. InterruptedError and KeyboardInterrupt - / None / str / int / list, on a fault region or at the k-th call for k < 10) with a differential oracle against the callback that returns False in the same situations and against the core on world + region",
-            "192 / 960 groups of runs per tier on seeded scenarios over all six Python problem variants and four planners; a failing callback must give the identical path / error as one returning False and never a path through the fault region. Only the Python binding is executed: the JavaScript binding (oxmpl-js) cannot run in this image (no wasm32 target, no wasm-bindgen) - that half of the property is not covered.",
+            "192 / 960 groups of runs per tier on seeded scenarios over all six Python problem variants and four planners; a failing callback must give the identical path / error as one returning False and never a path through the fault region; the goal object is itself callable and must never be consulted that way. Only the Python binding is executed: the JavaScript binding (oxmpl-js) cannot run in this image (no wasm32 target, no wasm-bindgen) - that half of the property is not covered.",
             "Trusted: determinism of the seeded planners (C07); PRM (wall-clock build) and timed-out runs are only checked for 'no state in the fault region'.",
             "DESIGN.md section 5 C20"),
 }
